@@ -502,6 +502,50 @@ def r4(repo, chk, prog, facts, frs, l_class_funcs, l_funcs):
             n += 1
             chk.ob("R4", f"{fr.qual}: logging region `if {norm(st.test)[:50]}` raises nothing", not bad, "; ".join(f"{it.cls} from {it.origin[:90]}" for it in bad[:3]), fl.fn.loc(st))
     chk.count("R4_regions_and_methods", n)
+    # values of other objects that exist only after some method ran (Optional, None after construction) and are
+    # dereferenced inside a logging region: each needs a checked reason why it is set by then
+    n_for = 0
+    for fr in frs:
+        if id(fr.node) in l_class_funcs:
+            continue
+        fl = facts[id(fr.node)]
+        f = Fn(repo, fr.ref)
+        for st in fl.region_stmts:
+            for node in walk_no_nested(st):
+                if isinstance(node, ast.Attribute) and isinstance(node.ctx, ast.Load) and isinstance(node.value, ast.Attribute) and not _is_L_text(norm(node.value)):
+                    for it in esc.optional_foreign(fr, f, st, node):
+                        n_for += 1
+                        key = norm(node.value)
+                        reason = _FOREIGN_FACTS.get(key)
+                        ok = reason is not None and reason[1](repo)
+                        chk.ob("R4", f"{fr.qual}: `{norm(node)[:60]}` in a logging region reads a value that is set by then", ok, (reason[0] if reason else it.why) + (": premise no longer holds" if reason and not ok else ""), f.loc(node))
+    chk.count("R4_late_initialised_values_read_in_logging_regions", n_for)
+
+
+def _client_random_premise(repo) -> bool:
+    """Context.client_random: a client sets it in __init__; a server sets it in _server_handle_hello before any traffic
+    key can be handed to the connection (whose key-log writer reads it); nobody else writes it"""
+    m = repo.mod("tls")
+    writers = {}
+    for q in sorted(m.functions):
+        if q.startswith("Context."):
+            g = Fn(repo, "tls:" + q)
+            for st, t, v in g.assigns(chain="self.client_random"):
+                writers.setdefault(q.split(".")[-1], []).append((g, st, v))
+    if set(writers) != {"__init__", "_server_handle_hello"}:
+        return False
+    ini = writers["__init__"]
+    ok_init = any(("is_client", True) in g.lexical_guards(st, expand=False) and not (isinstance(v, ast.Constant) and v.value is None) for g, st, v in ini)
+    g, st, v = writers["_server_handle_hello"][0]
+    if len(writers["_server_handle_hello"]) != 1 or g.lexical_guards(st, expand=False) or (isinstance(v, ast.Constant) and v.value is None):
+        return False
+    releases = [c for c in g.calls() if call_name(c) in ("self.update_traffic_key_cb", "self._setup_traffic_protection", "self._server_expect_finished")]
+    return ok_init and bool(releases) and all(g.before(st, c) for c in releases)
+
+
+_FOREIGN_FACTS = {
+    "self.tls.client_random": ("client_random is set by Context.__init__ (client) or at the top of _server_handle_hello, before any key release (checked)", _client_random_premise),
+}
 
 
 def _discharged_here(esc, fr, it):
